@@ -79,6 +79,10 @@ class Upper:
 
     def reset_received(self, code):
         self.trace.append(("up_reset", self.clock(), int(code)))
+        if self.on_reset is not None:
+            self.on_reset(int(code))
+
+    on_reset = None
 
     def error_received(self, code):
         self.trace.append(("up_reset", self.clock(), int(code)))
@@ -214,6 +218,22 @@ def run_case(case, acc: Acc | None = None):
 
         n = len(case["sends"])
         first = case.get("concurrent", n)
+        extra = []
+        if case.get("send_on_reset"):
+            # the layer above reacts to a reset notification by sending (as EZSP does with its version query):
+            # that send is new traffic, issued while whatever was queued before the reset is still going on
+            def on_reset(code):
+                if code == 0x0B and len(extra) < case["send_on_reset"]:
+                    idx = 900 + len(extra)
+                    scripts[idx] = [("ack", "d")]
+                    loop._harness += 1
+                    try:
+                        extra.append(loop.call_soon(lambda: extra_tasks.append(asyncio.ensure_future(do_send(idx)))))
+                    finally:
+                        loop._harness -= 1
+
+            up.on_reset = on_reset
+        extra_tasks = []
         if case.get("error_while_idle") is not None:
             deliver("err", case["error_while_idle"])
             await vloop.settle(loop)
@@ -227,6 +247,9 @@ def run_case(case, acc: Acc | None = None):
         for i in range(first, n):
             await do_send(i)
         await vloop.settle(loop, 4)
+        if extra_tasks:
+            await asyncio.wait(extra_tasks)
+        up.on_reset = None
         nxt = n
         if case.get("error_after"):
             # an ERROR frame after everything else (e.g. after the host gave up on its own): it is a
@@ -285,7 +308,7 @@ def check_trace(trace, max_attempts: int):
 
     open_sends = lambda t: [s for s in sends.values() if s["call"] is not None and s["end"] is None]  # noqa: E731
 
-    for ev in trace:
+    for ev_i, ev in enumerate(trace):
         k, t = ev[0], ev[1]
         if k == "call":
             S(ev[2])["call"] = t
@@ -330,7 +353,9 @@ def check_trace(trace, max_attempts: int):
                     bad.append(("C05/numbering/not-consecutive",
                                 f"send {idx} uses frmNum {fr.frm} after {last_first_frm}"))
                 for j, o in sends.items():
-                    if j != idx and o["att"] and not o["cover"] and not o.get("dead") and not o["rstacks"]:
+                    # (a frame first written before an RSTACK belongs to the old session: it is void, not outstanding)
+                    if j != idx and o["att"] and not o["cover"] and not o.get("dead") and \
+                            not (o["rstacks"] and o["att_i"][0] < max(o["rstack_i"])):
                         bad.append(("C05/window/two-unacknowledged-frames",
                                     f"send {idx} (frm {fr.frm}) written at {t:.3f} while send {j} "
                                     f"(frm {o['frm']}) has neither been acknowledged nor failed"))
@@ -355,6 +380,7 @@ def check_trace(trace, max_attempts: int):
                 if not nak_now and gap < T_MIN + 0.01:
                     facts["timeout_at_floor"] = True
             s["att"].append(t)
+            s.setdefault("att_i", []).append(ev_i)
             if len(s["att"]) > max_attempts:
                 bad.append(("C05/budget/too-many-attempts",
                             f"send {idx}: {len(s['att'])} attempts, budget is {max_attempts}"))
@@ -382,6 +408,7 @@ def check_trace(trace, max_attempts: int):
                 for s in sends.values():
                     if s["call"] is not None and (s["end"] is None or (s["outcome"] == "cancelled" and not s.get("dead") and not s["cover"])):
                         s["rstacks"].append(t)
+                        s.setdefault("rstack_i", []).append(ev_i)
         elif k == "up_reset":
             code = ev[2]
             m = next((p for p in pending_reset_expect if abs(p[0] - t) < EPS and p[1] == code), None)
@@ -656,7 +683,16 @@ def gen_cases(tier, seed):
             c_["cancel"] = [[rnd.randrange(c_["concurrent"]), rnd.choice([1, 1, 2, 3]), rnd.choice([0.0, 0.05, 0.5, 1.0])]]
         if rnd.random() < 0.15:
             c_["error_after"] = rnd.choice([0x51, 0x52, 0x80, 0x00, 0xFF])
+        if any(r[0] == "rstack" and r[2] == 0x0B for sc in sends for r in sc) and rnd.random() < 0.6:
+            c_["send_on_reset"] = rnd.choice([1, 1, 2])
         cases.append(c_)
+    # an RSTACK in mid-send with sends queued behind it, and the layer above sending again on the notification
+    for dl in ("0", "d"):
+        for nq in (1, 2):
+            for q in ([("ack", "d")], [("sil",), ("ack", "d")], [("ack", "T-")]):
+                for after in ([("ack", "0")], [("sil",), ("ack", "0")], []):
+                    cases.append({"sends": [[("rstack", dl, 0x0B)] + after] + [list(q)] * nq, "concurrent": 1 + nq,
+                                  "send_on_reset": 1, "followup": False})
     return cases
 
 
